@@ -37,6 +37,7 @@ import (
 	log "github.com/sirupsen/logrus"
 
 	"git.metabarcoding.org/obitools/obitools4/obitools4/pkg/obiapat"
+	"git.metabarcoding.org/obitools/obitools4/obitools4/pkg/obicorazick"
 	"git.metabarcoding.org/obitools/obitools4/obitools4/pkg/obiformats/ncbitaxdump"
 	"git.metabarcoding.org/obitools/obitools4/obitools4/pkg/obiiter"
 	"git.metabarcoding.org/obitools/obitools4/obitools4/pkg/obioptions"
@@ -328,6 +329,12 @@ type c16Spec struct {
 	rawToks                    []string
 	saveDisc, out              string // grepio: --save-discarded / --out, set by the harness
 	io                         bool
+	atrank                     []string // --with-taxon-at-rank
+	tpath, trank, sci          bool     // --taxonomic-path, --taxonomic-rank, --scientific-name
+	aho                        *[]string // --aho-corasick: the patterns of the file
+	pat, patname               string   // --pattern, --pattern-name
+	nosd                       bool  // grepio: no --save-discarded (the FilterOn path)
+	lay, perm                  []int // pipeline cases: sizes of the input batches, order in which they are pushed
 }
 
 func c16Pair2(x string) ([2]string, bool) {
@@ -364,6 +371,14 @@ func c16ParseSpec(ws []string) (*c16Spec, bool) {
 				sp.length = true
 			case "long":
 				sp.long = true
+			case "nosd":
+				sp.nosd = true
+			case "path":
+				sp.tpath = true
+			case "trank":
+				sp.trank = true
+			case "sci":
+				sp.sci = true
 			default:
 				return nil, false
 			}
@@ -419,6 +434,16 @@ func c16ParseSpec(ws []string) (*c16Spec, bool) {
 			if ok {
 				sp.i = append(sp.i, *n)
 			}
+		case "lay", "perm":
+			var l []int
+			l, ok = c16IntList(x)
+			if kv[0] == "lay" {
+				ok = ok && sp.lay == nil
+				sp.lay = l
+			} else {
+				ok = ok && sp.perm == nil
+				sp.perm = l
+			}
 		case "s":
 			ok = str(&sp.s, true)
 		case "D":
@@ -435,6 +460,39 @@ func c16ParseSpec(ws []string) (*c16Spec, bool) {
 			ok = str(&sp.rank, true)
 		case "ap":
 			ok = str(&sp.ap, true)
+		case "atrank":
+			ok = str(&sp.atrank, true)
+		case "pat", "patname":
+			var l []string
+			ok = str(&l, true)
+			if ok {
+				for _, c := range []byte(l[0]) {
+					ok = ok && ((c >= 'a' && c <= 'z') || c == '_')
+				}
+				if kv[0] == "pat" {
+					ok = ok && sp.pat == "" && len(l[0]) <= 20
+					sp.pat = l[0]
+				} else {
+					ok = ok && sp.patname == ""
+					sp.patname = l[0]
+				}
+			}
+		case "aho":
+			pats := []string{}
+			for _, h := range strings.Split(x, ",") {
+				q, ok2 := c16Ascii(h)
+				if !ok2 || q == "" {
+					return nil, false
+				}
+				for _, c := range []byte(q) {
+					if c < 'a' || c > 'z' {
+						return nil, false
+					}
+				}
+				pats = append(pats, q)
+			}
+			ok = sp.aho == nil
+			sp.aho = &pats
 		case "del":
 			ok = str(&sp.del, true)
 		case "keep":
@@ -533,7 +591,9 @@ func c16TmpDir() string {
 var c16Parent = map[int]int{1: 1, 2: 1, 10: 2, 11: 10, 12: 11, 13: 11, 20: 2, 21: 20, 30: 1, 31: 30}
 var c16Rank = map[int]string{1: "no rank", 2: "kingdom", 10: "family", 11: "genus", 12: "species", 13: "species", 20: "family", 21: "species", 30: "order", 31: "species"}
 
-func (sp *c16Spec) needsTax() bool { return len(sp.r)+len(sp.i)+len(sp.rank) > 0 }
+func (sp *c16Spec) needsTax() bool {
+	return len(sp.r)+len(sp.i)+len(sp.rank)+len(sp.atrank) > 0 || sp.tpath || sp.trank || sp.sci
+}
 
 // the argv the spec stands for
 func (sp *c16Spec) argv() []string {
@@ -627,10 +687,16 @@ func (sp *c16Spec) argv() []string {
 		opt("", "paired-with", "mates.fastq")
 	}
 	if sp.io {
-		opt("", "save-discarded", sp.saveDisc)
+		if !sp.nosd && sp.saveDisc != "" {
+			opt("", "save-discarded", sp.saveDisc)
+		}
 		opt("o", "out", sp.out)
 		opt("", "batch-size", strconv.Itoa(sp.bs))
-		opt("", "max-cpu", strconv.Itoa(sp.w))
+		if sp.w == 1 {
+			flag("", "force-one-cpu") // --max-cpu 1 is turned into 2 by the option parser
+		} else {
+			opt("", "max-cpu", strconv.Itoa(sp.w))
+		}
 	}
 	if sp.clear {
 		flag("", "clear")
@@ -646,6 +712,30 @@ func (sp *c16Spec) argv() []string {
 	}
 	for _, x := range sp.ren {
 		opt("R", "rename-tag", x[0]+"="+x[1])
+	}
+	for _, x := range sp.atrank {
+		opt("", "with-taxon-at-rank", x)
+	}
+	if sp.tpath {
+		flag("", "taxonomic-path")
+	}
+	if sp.trank {
+		flag("", "taxonomic-rank")
+	}
+	if sp.sci {
+		flag("", "scientific-name")
+	}
+	if sp.aho != nil {
+		c16Serial++
+		fn := filepath.Join(c16TmpDir(), fmt.Sprintf("aho%d.txt", c16Serial%8))
+		os.WriteFile(fn, []byte(strings.Join(*sp.aho, "\n")+"\n"), 0o644)
+		opt("", "aho-corasick", fn)
+	}
+	if sp.pat != "" {
+		opt("", "pattern", sp.pat)
+	}
+	if sp.patname != "" {
+		opt("", "pattern-name", sp.patname)
 	}
 	if sp.length {
 		flag("", "length")
@@ -1180,6 +1270,30 @@ func c16RefAnnot(sp *c16Spec, r0 c16Rec, t *c16Table, renOrder, tagOrder [][2]st
 			delete(r.attrs, p[1])
 		}
 	}
+	for _, rank := range sp.atrank {
+		switch v := t.taxonAtRank(rank, r); {
+		case v == "N":
+		case v == "-":
+			r.attrs[rank+"_taxid"] = c16Val{kind: 'i', n: -1}
+			r.attrs[rank+"_name"] = c16Val{kind: 's', s: "NA"}
+		default:
+			q := strings.Split(v, ",")
+			n, _ := strconv.Atoi(q[0])
+			name, _ := c16Ascii(q[1])
+			r.attrs[rank+"_taxid"] = c16Val{kind: 'i', n: n}
+			r.attrs[rank+"_name"] = c16Val{kind: 's', s: name}
+		}
+	}
+	for _, kf := range [][2]string{{"tpa", "taxonomic_path"}, {"trk", "taxonomic_rank"}, {"tsc", "scienctific_name"}} {
+		if (kf[0] == "tpa" && sp.tpath) || (kf[0] == "trk" && sp.trank) || (kf[0] == "tsc" && sp.sci) {
+			v := t.taxString(kf[0], r)
+			if v == "F" {
+				return "fatal"
+			}
+			x, _ := c16Ascii(v)
+			r.attrs[kf[1]] = c16Val{kind: 's', s: x}
+		}
+	}
 	if sp.length {
 		r.attrs["seq_length"] = c16Val{kind: 'i', n: len(r.seq)}
 	}
@@ -1193,6 +1307,14 @@ func c16RefAnnot(sp *c16Spec, r0 c16Rec, t *c16Table, renOrder, tagOrder [][2]st
 		}
 		if o := c16RefSet(&r, p[0], v); o != "" {
 			return o
+		}
+	}
+	if sp.aho != nil {
+		f, rv := t.aho(*sp.aho, r)
+		if f+rv > 0 {
+			r.attrs["aho_corasick"] = c16Val{kind: 'i', n: f + rv}
+			r.attrs["aho_corasick_Fwd"] = c16Val{kind: 'i', n: f}
+			r.attrs["aho_corasick_Rev"] = c16Val{kind: 'i', n: rv}
 		}
 	}
 	if sp.cut != nil && sp.cut[0] != 0 && sp.cut[1] != 0 {
@@ -1222,7 +1344,173 @@ func c16RefAnnot(sp *c16Spec, r0 c16Rec, t *c16Table, renOrder, tagOrder [][2]st
 		r.id = fmt.Sprintf("%s_sub[%d..%d]", r.id, lo+1, hi)
 		r.seq = r.seq[lo:hi]
 	}
+	if sp.pat != "" {
+		e := 0
+		if sp.pe != nil {
+			e = *sp.pe
+		}
+		name, slot := "pattern", "pattern"
+		if sp.patname != "" && sp.patname != "pattern" {
+			name, slot = sp.patname, sp.patname+"_pattern"
+		}
+		set := func(st, en, nerr int, loc string, match []byte) {
+			r.attrs[slot] = c16Val{kind: 's', s: sp.pat}
+			r.attrs[name+"_match"] = c16Val{kind: 's', s: string(match)}
+			r.attrs[name+"_error"] = c16Val{kind: 'i', n: nerr}
+			r.attrs[name+"_location"] = c16Val{kind: 's', s: loc}
+		}
+		if st, en, nerr, ok := t.bestMatch(sp.pat, e, sp.indel, true, r); ok {
+			set(st, en, nerr, fmt.Sprintf("%d..%d", st+1, en), r.seq[st:en])
+		} else if st, en, nerr, ok := t.bestMatch(sp.pat, e, sp.indel, false, r); ok {
+			m := make([]byte, 0, en-st)
+			for i := en - 1; i >= st; i-- {
+				c := r.seq[i]
+				switch c {
+				case 'a':
+					c = 't'
+				case 't':
+					c = 'a'
+				case 'c':
+					c = 'g'
+				case 'g':
+					c = 'c'
+				}
+				m = append(m, c)
+			}
+			set(st, en, nerr, fmt.Sprintf("complement(%d..%d)", st+1, en), m)
+		}
+	}
 	return "out:" + r.show()
+}
+
+// library verdicts of the annotation workers (data for the model)
+
+func (t *c16Table) taxonAtRank(rank string, r c16Rec) string {
+	k := "tar:" + hx([]byte(rank)) + ":" + r.show()
+	if v, ok := t.m[k]; ok {
+		return v
+	}
+	res := "N"
+	s := r.bio()
+	out := guardT(2*time.Second, func() string {
+		c16Taxonomy().SetTaxonAtRank(s, rank)
+		return "ok"
+	})
+	if out == "ok" {
+		if v, ok := s.GetAttribute(rank + "_taxid"); ok {
+			n, _ := v.(int)
+			name, _ := s.GetAttribute(rank + "_name")
+			if n == -1 {
+				res = "-"
+			} else {
+				res = strconv.Itoa(n) + "," + hx([]byte(fmt.Sprint(name)))
+			}
+		}
+	}
+	t.put(k, res)
+	return res
+}
+
+func (t *c16Table) taxString(what string, r c16Rec) string {
+	k := what + ":" + r.show()
+	if v, ok := t.m[k]; ok {
+		return v
+	}
+	res := "F"
+	s := r.bio()
+	out := guardT(2*time.Second, func() string {
+		switch what {
+		case "tpa":
+			return "v" + c16Taxonomy().SetPath(s)
+		case "trk":
+			return "v" + c16Taxonomy().SetTaxonomicRank(s)
+		}
+		return "v" + c16Taxonomy().SetScientificName(s)
+	})
+	if strings.HasPrefix(out, "v") {
+		res = hx([]byte(out[1:]))
+	}
+	t.put(k, res)
+	return res
+}
+
+func (t *c16Table) aho(pats []string, r c16Rec) (int, int) {
+	hp := make([]string, len(pats))
+	for i, p := range pats {
+		hp[i] = hx([]byte(p))
+	}
+	k := "aho:" + strings.Join(hp, ",") + ":" + r.show()
+	if v, ok := t.m[k]; ok {
+		q := strings.Split(v, ",")
+		a, _ := strconv.Atoi(q[0])
+		b, _ := strconv.Atoi(q[1])
+		return a, b
+	}
+	f, rv := 0, 0
+	s := r.bio()
+	guardT(2*time.Second, func() string {
+		obicorazick.AhoCorazickWorker("x", pats)(s)
+		if v, ok := s.GetIntAttribute("x_Fwd"); ok {
+			f = v
+		}
+		if v, ok := s.GetIntAttribute("x_Rev"); ok {
+			rv = v
+		}
+		return "ok"
+	})
+	t.put(k, fmt.Sprintf("%d,%d", f, rv))
+	return f, rv
+}
+
+func (t *c16Table) bestMatch(pat string, e int, indel, direct bool, r c16Rec) (int, int, int, bool) {
+	g, d := "n", "c"
+	if indel {
+		g = "i"
+	}
+	if direct {
+		d = "d"
+	}
+	k := "bm:" + hx([]byte(pat)) + ":" + strconv.Itoa(e) + g + d + ":" + r.show()
+	if v, ok := t.m[k]; ok {
+		if v == "-" {
+			return 0, 0, 0, false
+		}
+		q := strings.Split(v, ",")
+		a, _ := strconv.Atoi(q[0])
+		b, _ := strconv.Atoi(q[1])
+		c, _ := strconv.Atoi(q[2])
+		return a, b, c, true
+	}
+	res := "-"
+	var st, en, nerr int
+	found := false
+	s := r.bio()
+	guardT(2*time.Second, func() string {
+		p, err := obiapat.MakeApatPattern(pat, e, indel)
+		if err != nil {
+			return "err"
+		}
+		if !direct {
+			p, err = p.ReverseComplement()
+			if err != nil {
+				return "err"
+			}
+		}
+		as, err := obiapat.MakeApatSequence(s, false)
+		if err != nil {
+			return "err"
+		}
+		a, b, c, m := p.BestMatch(as, 0, s.Len())
+		if m && a >= 0 && b <= s.Len() && a < b {
+			st, en, nerr, found = a, b, c, true
+		}
+		return "ok"
+	})
+	if found {
+		res = fmt.Sprintf("%d,%d,%d", st, en, nerr)
+	}
+	t.put(k, res)
+	return st, en, nerr, found
 }
 
 // ---------------------------------------------------------------------------------------------
@@ -1252,7 +1540,7 @@ func c16Kinds(sp *c16Spec) string {
 	seen := map[string]bool{}
 	var ks []string
 	for _, n := range sp.names {
-		if n == "long" || n == "bs" || n == "w" || seen[n] {
+		if n == "long" || n == "bs" || n == "w" || n == "lay" || n == "perm" || n == "nosd" || seen[n] {
 			continue
 		}
 		seen[n] = true
@@ -1378,6 +1666,9 @@ func (sp *c16Spec) toks() []string { return sp.rawToks }
 
 func (c16) execAnnot(sp *c16Spec, recs []c16Pair) (string, []Fail) {
 	var fails []Fail
+	if !c16PatSeqOK(sp, recs) {
+		return "bad-op", nil
+	}
 	tab := &c16Table{}
 	ren, tag := c16SortedPairs(sp.ren), c16SortedPairs(sp.tag)
 	exp := make([]string, len(recs))
@@ -1531,18 +1822,33 @@ func (c16) Exec(c string) (string, []Fail) {
 		return "bad-op", nil
 	}
 	head := strings.Fields(parts[0])
+	if len(head) > 0 && head[0] == "argv" {
+		if len(parts) != 2 || parts[1] != "-" {
+			return "bad-op", nil
+		}
+		return c16{}.execArgv(head[1:])
+	}
 	recs, ok := c16ParseRecs(parts[1])
 	if len(head) == 0 || !ok {
 		return "bad-op", nil
 	}
 	switch head[0] {
-	case "grep", "annot", "grepio":
+	case "distio":
+		if len(parts) != 2 {
+			return "bad-op", nil
+		}
+		return c16{}.execDistIO(head[1:], recs)
+	case "grep", "annot", "grepio", "annotio":
 		sp, ok := c16ParseSpec(head[1:])
 		if !ok {
 			return "bad-op", nil
 		}
 		sp.rawToks = head[1:]
-		annotOnly := sp.clear || sp.length || sp.setid != "" || len(sp.del)+len(sp.keep)+len(sp.ren)+len(sp.tag) > 0 || sp.cut != nil
+		annotOnly := sp.clear || sp.length || sp.setid != "" || len(sp.del)+len(sp.keep)+len(sp.ren)+len(sp.tag) > 0 || sp.cut != nil ||
+			len(sp.atrank) > 0 || sp.tpath || sp.trank || sp.sci || sp.aho != nil || sp.pat != "" || sp.patname != ""
+		if (head[0] == "grep" || head[0] == "annot") && (sp.nosd || sp.lay != nil || sp.perm != nil) {
+			return "bad-op", nil
+		}
 		switch head[0] {
 		case "grep":
 			if annotOnly {
@@ -1564,6 +1870,16 @@ func (c16) Exec(c string) (string, []Fail) {
 				}
 			}
 			return c16{}.execAnnot(sp, recs)
+		case "annotio":
+			if sp.paired || sp.pmSet || sp.nosd {
+				return "bad-op", nil
+			}
+			for _, p := range recs {
+				if p.mate != nil {
+					return "bad-op", nil
+				}
+			}
+			return c16{}.execAnnotIO(sp, recs)
 		default:
 			if annotOnly {
 				return "bad-op", nil
@@ -1651,6 +1967,9 @@ func (c16) execGrepIO(sp *c16Spec, recs []c16Pair) (string, []Fail) {
 	if _, ok := c16Truth[sp.pm]; !ok {
 		return "bad-op", nil
 	}
+	if !c16LayoutOK(sp, len(recs)) {
+		return "bad-op", nil
+	}
 	// what is expected when the options equal to their defaults are taken as absent
 	sp2, dn := sp.dropDefaults()
 	var alt [4][]string
@@ -1684,32 +2003,17 @@ func (c16) execGrepIO(sp *c16Spec, recs []c16Pair) (string, []Fail) {
 		return st, nil
 	}
 	st := guardT(20*time.Second, func() string {
-		// the reader: batches of bs records, mates zipped by PairTo
+		// the reader: batches of the requested sizes pushed in the requested order, mates zipped by PairTo
 		mk := func(second bool) obiiter.IBioSequence {
-			it := obiiter.MakeIBioSequence()
-			it.Add(1)
-			go func() {
-				order := 0
-				sl := obiseq.MakeBioSequenceSlice()
-				for _, p := range recs {
-					if second {
-						sl = append(sl, p.mate.bio())
-					} else {
-						sl = append(sl, p.r.bio())
-					}
-					if len(sl) == sp.bs {
-						it.Push(obiiter.MakeBioSequenceBatch("verif", order, sl))
-						order++
-						sl = obiseq.MakeBioSequenceSlice()
-					}
+			sl := make([]*obiseq.BioSequence, len(recs))
+			for i, p := range recs {
+				if second {
+					sl[i] = p.mate.bio()
+				} else {
+					sl[i] = p.r.bio()
 				}
-				if len(sl) > 0 {
-					it.Push(obiiter.MakeBioSequenceBatch("verif", order, sl))
-				}
-				it.Done()
-			}()
-			go it.WaitAndClose()
-			return it
+			}
+			return c16Source(sp, sl)
 		}
 		it := mk(false)
 		if sp.paired {
@@ -1747,11 +2051,20 @@ func (c16) execGrepIO(sp *c16Spec, recs []c16Pair) (string, []Fail) {
 	if sp.paired {
 		res = append(res, "kept1="+check("kept", filepath.Join(dir, "kept_R1.fasta"), expKept, false))
 		res = append(res, "kept2="+check("kept-mates", filepath.Join(dir, "kept_R2.fasta"), mk, false))
-		res = append(res, "disc1="+check("discarded", filepath.Join(dir, "disc_R1.fasta"), expDisc, false))
-		res = append(res, "disc2="+check("discarded-mates", filepath.Join(dir, "disc_R2.fasta"), md, false))
+		if !sp.nosd {
+			res = append(res, "disc1="+check("discarded", filepath.Join(dir, "disc_R1.fasta"), expDisc, false))
+			res = append(res, "disc2="+check("discarded-mates", filepath.Join(dir, "disc_R2.fasta"), md, false))
+		}
 	} else {
 		res = append(res, "kept="+check("kept", outFn, expKept, false))
-		res = append(res, "disc="+check("discarded", discFn, expDisc, false))
+		if !sp.nosd {
+			res = append(res, "disc="+check("discarded", discFn, expDisc, false))
+		}
+	}
+	if sp.nosd {
+		if _, err := os.Stat(discFn); err == nil {
+			fails = append(fails, Fail{Sig: "grepio.unexpected-file", Text: "a discarded-records file is written without --save-discarded"})
+		}
 	}
 	caseTrivial = len(recs) == 0
 	if len(fails) > 0 && dn != "" {
@@ -1971,6 +2284,33 @@ func c16Opt(rng *rand.Rand, kind string, recs []c16Pair) []string {
 			}
 			return "tag=" + hs(k) + ":" + hs(pick(c16ValEx))
 		})
+	case "atrank":
+		return rep(func() string { return "atrank=" + hs(pick([]string{"species", "genus", "family", "order", "kingdom", "class"})) })
+	case "path":
+		return []string{"path"}
+	case "trank":
+		return []string{"trank"}
+	case "sci":
+		return []string{"sci"}
+	case "aho":
+		n := 1 + rng.Intn(3)
+		ps := make([]string, n)
+		for i := range ps {
+			ps[i] = hs(pick([]string{"ac", "gt", "a", "ttg", "cg", "acgt"}))
+		}
+		return []string{"aho=" + strings.Join(ps, ",")}
+	case "pat":
+		out := []string{"pat=" + hs(pick([]string{"acgt", "ttga", "aaa", "cgta", "gg", "ac"}))}
+		if rng.Intn(2) == 0 {
+			out = append(out, "patname="+hs(pick([]string{"primer", "pattern", "p_x"})))
+		}
+		if rng.Intn(2) == 0 {
+			out = append(out, fmt.Sprintf("pe=%d", rng.Intn(2)))
+		}
+		if rng.Intn(4) == 0 {
+			out = append(out, "indel")
+		}
+		return out
 	case "cut":
 		r := recs[rng.Intn(len(recs))].r
 		n := len(r.seq)
@@ -1992,6 +2332,25 @@ func c16Opt(rng *rand.Rand, kind string, recs []c16Pair) []string {
 
 var c16GrepKinds = []string{"l", "L", "c", "C", "s", "D", "I", "A", "a", "p", "idl", "v", "r", "i", "rank", "ap"}
 var c16AnnotKinds = []string{"clear", "setid", "del", "keep", "ren", "len", "tag", "cut"}
+var c16LibKinds = []string{"atrank", "path", "trank", "sci", "aho", "pat"}
+
+// the --pattern cases run on non-empty acgt sequences
+func c16PatSeqOK(sp *c16Spec, recs []c16Pair) bool {
+	if sp.pat == "" {
+		return true
+	}
+	for _, p := range recs {
+		if len(p.r.seq) == 0 {
+			return false
+		}
+		for _, b := range p.r.seq {
+			if b != 'a' && b != 'c' && b != 'g' && b != 't' {
+				return false
+			}
+		}
+	}
+	return true
+}
 var c16Modes = []string{"forward", "reverse", "and", "or", "andnot", "xor"}
 
 func (c16) Gen(rng *rand.Rand, tier string, emit func(string)) {
@@ -2116,6 +2475,42 @@ func (c16) Gen(rng *rand.Rand, tier string, emit func(string)) {
 		emit(join("annot", toks, recs))
 		stat("annot.subset")
 	}
+	// library-driven annotation workers: alone (3 draws), with each edit kind, random subsets
+	fix := func(recs []c16Pair) []c16Pair {
+		for j := range recs {
+			if len(recs[j].r.seq) == 0 {
+				recs[j].r.seq = []byte("acgtt")
+			}
+		}
+		return recs
+	}
+	for _, k := range c16LibKinds {
+		for j := 0; j < 3; j++ {
+			recs := fix(c16RandRecs(rng, false))
+			emit(join("annot", c16Opt(rng, k, recs), recs))
+			stat("annot.lib.single")
+		}
+		for _, k2 := range c16AnnotKinds {
+			recs := fix(c16RandRecs(rng, false))
+			emit(join("annot", append(c16Opt(rng, k, recs), c16Opt(rng, k2, recs)...), recs))
+			stat("annot.lib.pair")
+		}
+	}
+	for i := 0; i < nrand/3; i++ {
+		recs := fix(c16RandRecs(rng, false))
+		var toks []string
+		for _, i := range rng.Perm(len(c16LibKinds))[:1+rng.Intn(3)] {
+			toks = append(toks, c16Opt(rng, c16LibKinds[i], recs)...)
+		}
+		if rng.Intn(2) == 0 {
+			toks = append(toks, subset(c16AnnotKinds, recs, 1)...)
+		}
+		if rng.Intn(4) == 0 {
+			toks = append(toks, c16Opt(rng, []string{"l", "c", "A", "I"}[rng.Intn(4)], recs)...)
+		}
+		emit(join("annot", toks, recs))
+		stat("annot.lib.subset")
+	}
 	// classifier of obidistribute
 	for i := 0; i < nrand/6; i++ {
 		recs := c16RandRecs(rng, false)
@@ -2158,4 +2553,6 @@ func (c16) Gen(rng *rand.Rand, tier string, emit func(string)) {
 		emit(join("grepio", toks, recs))
 		stat("grepio")
 	}
+	c16GenPipe(rng, tier, emit, join)
+	c16GenArgv(rng, tier, emit)
 }
